@@ -13,7 +13,9 @@
 use std::cmp::Ordering;
 
 use hv_common::{Rng, Trace, Value, json};
-use lattices::ght::lattice::{DeepJoinLatticeBimorphism, GhtCartesianProductBimorphism};
+use lattices::ght::lattice::{
+    DeepJoinLatticeBimorphism, GhtBimorphism, GhtCartesianProductBimorphism, GhtValTypeProductBimorphism,
+};
 use lattices::ght::{GeneralizedHashTrieNode, GhtGet, GhtPrefixIter};
 use lattices::{GhtType, LatticeBimorphism, Merge};
 use variadics::variadic_collections::{
@@ -98,6 +100,12 @@ struct Op<'a> {
     rows: Vec<Vec<u8>>,
     head: u8,
     prefix: Vec<u8>,
+    /// distributivity events (C07): bimorphism name, side "l"|"r", and the row lists a, da, b
+    bim: String,
+    side: String,
+    a: Vec<Vec<u8>>,
+    da: Vec<Vec<u8>>,
+    b: Vec<Vec<u8>>,
 }
 
 /// A pair of stores (1 and 2) of one concrete type.  `None` = operation not offered by the type.
@@ -260,6 +268,29 @@ macro_rules! ght_inner {
     }};
 }
 
+/// Distributivity of a bimorphism `f` in one argument, computed with the real code:
+/// side "l": lhs = f(a |_| da, b), rhs = f(a, b) |_| f(da, b);  side "r": lhs = f(b, a |_| da), rhs = f(b, a) |_| f(b, da)
+/// (`a`/`da` always denote the argument that grows).  Returns [lhs rows, rhs rows, lhs == rhs].
+fn dist<G, RG, Out, RO>(op: &Op, f: impl Fn(&G, &G) -> Out) -> Value
+where
+    G: GeneralizedHashTrieNode<Schema = RG> + Merge<G> + Clone,
+    RG: Row + VariadicExt,
+    Out: GeneralizedHashTrieNode<Schema = RO> + Merge<Out> + PartialEq,
+    RO: Row + VariadicExt,
+{
+    let mk = |rows: &Vec<Vec<u8>>| G::new_from(rows.iter().map(|r| RG::mk(r)));
+    let (a, da, b) = (mk(&op.a), mk(&op.da), mk(&op.b));
+    let mut grown = a.clone();
+    Merge::merge(&mut grown, da.clone());
+    let left = op.side == "l";
+    let call = |x: &G| if left { f(x, &b) } else { f(&b, x) };
+    let lhs = call(&grown);
+    let mut rhs = call(&a);
+    Merge::merge(&mut rhs, call(&da));
+    let eq = lhs == rhs;
+    json!([sorted(lhs.recursive_iter().map(RO::rvec).collect()), sorted(rhs.recursive_iter().map(RO::rvec).collect()), eq])
+}
+
 type G0 = GhtType!(() => u8, u8: VariadicHashSetStd);
 type G1 = GhtType!(u8 => u8: VariadicHashSetStd);
 type G2 = GhtType!(u8, u8 => (): VariadicHashSetStd);
@@ -318,6 +349,11 @@ impl Pair for Ght<G0> {
         if op.name == "prefix" {
             return prefix2(&self.st[s], &op.prefix);
         }
+        if op.name == "dist" && op.bim == "valprod" {
+            // product of the value columns of two leaves: (a cols, b cols)
+            type Out = GhtType!(() => u8, u8, u8, u8: VariadicHashSetStd);
+            return Some(dist::<G0, R2, Out, R4>(op, |x, y| GhtValTypeProductBimorphism::<Out>::default().call(x, y)));
+        }
         ght_lattice!(self, op).or_else(|| ght_common!(self, op, G0, R2))
     }
 }
@@ -332,6 +368,21 @@ impl Pair for Ght<G1> {
                 let mut bim = GhtCartesianProductBimorphism::<Out>::default();
                 let out = bim.call(&self.st[0], &self.st[1]);
                 return Some(sorted(out.recursive_iter().map(R4::rvec).collect()));
+            }
+            "dist" => {
+                type CartOut = GhtType!(u8, u8 => u8, u8: VariadicHashSetStd);
+                type Bim = <(G1, G1) as DeepJoinLatticeBimorphism<VariadicHashSetStd<R3>>>::DeepJoinLatticeBimorphism;
+                return match op.bim.as_str() {
+                    "cart" => Some(dist::<G1, R2, CartOut, R4>(op, |x, y| {
+                        GhtCartesianProductBimorphism::<CartOut>::default().call(x, y)
+                    })),
+                    "join" => Some(dist::<G1, R2, _, R3>(op, |x, y| <Bim as Default>::default().call(x, y))),
+                    // the by-value wrapper GhtBimorphism around the same node bimorphism
+                    "wrap" => Some(dist::<G1, R2, _, R3>(op, |x, y| {
+                        GhtBimorphism::new(<Bim as Default>::default()).call(x.clone(), y.clone())
+                    })),
+                    _ => None,
+                };
             }
             "join" => {
                 // equijoin on the key column: (k, va, vb)
@@ -374,6 +425,10 @@ impl Pair for Ght<G4> {
         let s = op.s.saturating_sub(1).min(1);
         match op.name {
             "prefix" => return prefix3(&self.st[s], &op.prefix),
+            "dist" if op.bim == "join" => {
+                type Bim = <(G4, G4) as DeepJoinLatticeBimorphism<VariadicHashSetStd<R4>>>::DeepJoinLatticeBimorphism;
+                return Some(dist::<G4, R3, _, R4>(op, |x, y| <Bim as Default>::default().call(x, y)));
+            }
             "join" => {
                 // equijoin on both key columns: (k1, k2, va, vb)
                 type Bim = <(G4, G4) as DeepJoinLatticeBimorphism<VariadicHashSetStd<R4>>>::DeepJoinLatticeBimorphism;
@@ -446,10 +501,13 @@ fn ops_of(ty: &str) -> Vec<&'static str> {
                 v.extend(["heads", "child"]);
             }
             if ty == "g1" {
-                v.extend(["cart", "join"]);
+                v.extend(["cart", "join", "dist", "dist"]);
             }
             if ty == "g4" {
-                v.push("join");
+                v.extend(["join", "dist"]);
+            }
+            if ty == "g0" {
+                v.push("dist");
             }
         }
     }
@@ -467,7 +525,13 @@ fn run_case(id: u64, ty: &str, ops: &[Value], tr: &mut Trace) {
             rows: serde_json::from_value(o["rows"].clone()).unwrap_or_default(),
             head: o["head"].as_u64().unwrap_or(0) as u8,
             prefix: serde_json::from_value(o["prefix"].clone()).unwrap_or_default(),
+            bim: o["bim"].as_str().unwrap_or("").to_string(),
+            side: o["side"].as_str().unwrap_or("").to_string(),
+            a: serde_json::from_value(o["a"].clone()).unwrap_or_default(),
+            da: serde_json::from_value(o["da"].clone()).unwrap_or_default(),
+            b: serde_json::from_value(o["b"].clone()).unwrap_or_default(),
         };
+        let is_dist = op.name == "dist";
         let pr = &mut pair;
         let got = hv_common::catch(move || pr.apply(&op));
         let mut ev = json!({"e":"op","op":o["op"],"s":o["s"].as_u64().unwrap_or(1),
@@ -475,6 +539,9 @@ fn run_case(id: u64, ty: &str, ops: &[Value], tr: &mut Trace) {
             "rows":o.get("rows").cloned().unwrap_or(json!([])),
             "head":o.get("head").cloned().unwrap_or(json!(0)),
             "prefix":o.get("prefix").cloned().unwrap_or(json!([]))});
+        if is_dist {
+            ev = json!({"e":"dist","op":"dist","s":1,"bim":o["bim"],"side":o["side"],"a":o["a"],"da":o["da"],"b":o["b"]});
+        }
         let m = ev.as_object_mut().unwrap();
         match got {
             Ok(Some(v)) => {
@@ -533,6 +600,17 @@ fn main() {
                         let rows: Vec<Vec<u8>> = (0..k).map(|_| row(&mut rng)).collect();
                         let plen = rng.below(width as u64 + 1) as usize;
                         let prefix: Vec<u8> = row(&mut rng)[..plen].to_vec();
+                        if name == "dist" {
+                            let bims: &[&str] = match ty {
+                                "g0" => &["valprod"],
+                                "g1" => &["cart", "join", "wrap"],
+                                _ => &["join"],
+                            };
+                            let some = |rng: &mut Rng| -> Vec<Vec<u8>> { (0..rng.below(6)).map(|_| row(rng)).collect() };
+                            return json!({"op":"dist","bim":bims[rng.below(bims.len() as u64) as usize],
+                                "side": if rng.below(2) == 0 { "l" } else { "r" },
+                                "a":some(&mut rng),"da":some(&mut rng),"b":some(&mut rng)});
+                        }
                         json!({"op":name,"s":s,"row":row(&mut rng),"rows":rows,"head":rng.below(nvals),"prefix":prefix})
                     })
                     .collect();
